@@ -59,14 +59,52 @@ def bytesOfHex (s : String) : Option Bytes :=
 
 def strBytes (s : String) : Bytes := s.toUTF8.toList
 
-/-- big-endian 32-bit read/write on byte lists -/
+/-- big-endian 32-bit read/write on byte lists. Go writes `uint32(a)<<24 | uint32(b)<<16 | …`
+and `byte(x>>24)` …; the model states the same function arithmetically (the shifted operands
+occupy disjoint bit ranges, so `|` is `+`), which keeps the proofs inside `omega`. The
+correspondence check exercises every place where this is used. -/
 def be32 (a b c d : UInt8) : UInt32 :=
-  (a.toUInt32 <<< 24) ||| (b.toUInt32 <<< 16) ||| (c.toUInt32 <<< 8) ||| d.toUInt32
+  UInt32.ofNat (a.toNat * 16777216 + b.toNat * 65536 + c.toNat * 256 + d.toNat)
 
 def putBe32 (x : UInt32) : Bytes :=
-  [(x >>> 24).toUInt8, (x >>> 16).toUInt8, (x >>> 8).toUInt8, x.toUInt8]
+  [UInt8.ofNat (x.toNat / 16777216), UInt8.ofNat (x.toNat / 65536), UInt8.ofNat (x.toNat / 256), UInt8.ofNat x.toNat]
 
-def be16 (a b : UInt8) : UInt16 := (a.toUInt16 <<< 8) ||| b.toUInt16
-def putBe16 (x : UInt16) : Bytes := [(x >>> 8).toUInt8, x.toUInt8]
+def be16 (a b : UInt8) : UInt16 := UInt16.ofNat (a.toNat * 256 + b.toNat)
+def putBe16 (x : UInt16) : Bytes := [UInt8.ofNat (x.toNat / 256), UInt8.ofNat x.toNat]
+
+theorem be32_putBe32 (x : UInt32) :
+    be32 (UInt8.ofNat (x.toNat / 16777216)) (UInt8.ofNat (x.toNat / 65536)) (UInt8.ofNat (x.toNat / 256))
+      (UInt8.ofNat x.toNat) = x := by
+  unfold be32
+  apply UInt32.toNat.inj
+  have := x.toNat_lt
+  simp [UInt32.toNat_ofNat', UInt8.toNat_ofNat']
+  omega
+
+theorem be32_putBe32' (x : UInt32) :
+    be32 (UInt8.ofNat (x.toNat / 16777216)) (UInt8.ofNat (x.toNat / 65536)) (UInt8.ofNat (x.toNat / 256))
+      x.toUInt8 = x := by
+  have : x.toUInt8 = UInt8.ofNat x.toNat := by
+    apply UInt8.toNat.inj; simp [UInt8.toNat_ofNat']
+  rw [this]; exact be32_putBe32 x
+
+theorem putBe32_be32 (a b c d : UInt8) : putBe32 (be32 a b c d) = [a, b, c, d] := by
+  unfold putBe32 be32
+  have ha := a.toNat_lt; have hb := b.toNat_lt; have hc := c.toNat_lt; have hd := d.toNat_lt
+  simp only [List.cons.injEq, and_true]
+  refine ⟨?_, ?_, ?_, ?_⟩ <;> apply UInt8.toNat.inj <;> simp [UInt32.toNat_ofNat', UInt8.toNat_ofNat'] <;> omega
+
+theorem be16_putBe16 (x : UInt16) : be16 (UInt8.ofNat (x.toNat / 256)) (UInt8.ofNat x.toNat) = x := by
+  unfold be16
+  apply UInt16.toNat.inj
+  have := x.toNat_lt
+  simp [UInt16.toNat_ofNat', UInt8.toNat_ofNat']
+  omega
+
+theorem putBe16_be16 (a b : UInt8) : putBe16 (be16 a b) = [a, b] := by
+  unfold putBe16 be16
+  have ha := a.toNat_lt; have hb := b.toNat_lt
+  simp only [List.cons.injEq, and_true]
+  refine ⟨?_, ?_⟩ <;> apply UInt8.toNat.inj <;> simp [UInt16.toNat_ofNat', UInt8.toNat_ofNat'] <;> omega
 
 end Emitter
